@@ -288,3 +288,28 @@ PROPS["C11"] = {
     "outside_claim": ["distinct leases => distinct namespaces rests on SHA-224 collision resistance (assumed)", "the namespace ARGUMENT passed to the Kubernetes client in client.go/apply.go/cleanup.go (needs a clientset model; not built)", "ingress objects", "what the API server / CNI enforce", "commit factors other than the 8 listed; values above 2^44"],
     "assumptions": ["NetworkPolicy semantics as documented by Kubernetes: a pod selected by any policy of a type is isolated for that type and admits the union of all rules", "the lease namespace is not the ingress controller's namespace"],
 }
+
+PROPS["C09"] = {
+    "jobs": [{"pkg": "provider/gateway/utils", "files": ["harness/C09/auth.go"], "shims": ["shim.go.tmpl", "shim_cert.go.tmpl"],
+              "quick": ["Harness_C09_verify"], "thorough": ["Harness_C09_verify"], "opts": {"timeout": 20000, "witness": 8},
+              "reach": {"Harness_C09_verify": ["accepted", "genuine-accepted", "rejected", "no-certificate"]}}],
+    "bounds": {"quick": "VerifyPeerCertificate of the real NewServerTLSConfig: on-chain certificate of account X present/absent, valid/revoked, symbolic serial; presented certificate with CN in {X, another account, not an address}, issuer equal or different, same or different (symbolic) serial, the on-chain key or another key, self-signed or signed by the other key, inside/outside its validity window, with/without client-auth usage, chain length 0/1/2",
+               "thorough": "same"},
+    "stubs": COMMON_STUBS + ["x509.ParseCertificate / pem.Decode / CertPool.AddCert / Certificate.Verify -> certificate tokens with the contract: Verify succeeds iff the certificate is one of the roots (identical certificate) or a CA root's key signed it (account certificates are not CAs), it is inside its validity window and carries the requested usage (natively: real certificates, real ECDSA, real crypto/x509)", "cert QueryClient -> harness stub answering from one modelled on-chain certificate"],
+    "outside_claim": ["X.509/ECDSA/TLS mathematics, PEM/DER parsing", "request scoping by tenant (requireOwner / parseLeaseID / router wiring): gorilla mux and context are not modelled - part (ii) of the statement is NOT covered", "the cert module's querier itself (C17)"],
+    "assumptions": ["tls.Config.VerifyPeerCertificate is the only admission decision (InsecureSkipVerify is set by the code)"],
+}
+
+C15_Q = ["Harness_C15_root_0", "Harness_C15_root_2", "Harness_C15_sub_0_2", "Harness_C15_sub_1_0", "Harness_C15_sub_1_1", "Harness_C15_sub_2_0", "Harness_C15_sub_2_2"]
+PROPS["C15"] = {
+    "jobs": [{"pkg": "pubsub", "files": ["harness/C15/bus.go"], "shims": ["shim.go.tmpl", "shim_loop.go.tmpl"],
+              "quick": C15_Q, "thorough": C15_Q + ["Harness_C15_sub_3_1"], "opts": {"timeout": 20000, "witness": 4},
+              "reach": {"Harness_C15_sub_2_2": ["stepped"]}}],
+    "bounds": {"quick": "single-step lemmas on the real (*bus).run body and newSubscriber: bus in root or subscriber mode with 0/1/2 buffered events and 0/1/2 children; one of publish / emit / subscribe(clone) / unsubscribe, then shutdown with its post-loop collection of children",
+               "thorough": "adds 3 buffered events x 1 child"},
+    "stubs": LOOP_STUBS + ["child buses -> environment sinks/sources (their own loops are not run in the engine; natively live reader goroutines stand in for them)"],
+    "outside_claim": ["the end-to-end statement over all interleavings of concurrent goroutines: it follows from the step lemmas only through a hand-written compositional argument (per-subscriber FIFO invariant) that is not solver-checked", "data races"],
+    "assumptions": ["bus state is touched only by its own loop goroutine"],
+    "level": "other",
+    "explanation": "Solver-decided single-step lemmas on the real (*bus).run body and newSubscriber (publish hands the event to every child once and appends it once; emit sends and drops exactly the oldest buffered event; a clone starts with a private copy of the undelivered buffer; unsubscribe removes the child; shutdown signals and collects every child and notifies the parent once; no step blocks). The property's end-to-end statement over all interleavings of concurrent goroutines follows from these lemmas only through a hand-written compositional argument (per-subscriber FIFO invariant: delivered ++ buffer = published since subscription) which is NOT checked by the solver; multi-goroutine interleavings are outside bounded single-goroutine symbolic execution.",
+}
